@@ -164,11 +164,15 @@ func solveAll(w *World, cfg *RunCfg, results []*FuncResult) {
 		for _, o := range r.Obls {
 			o.Status = "discharged"
 			if o.ExpectFail {
-				// canary: must be satisfiable
+				// canary: vacuous only if every sampled query is refuted
+				all := len(o.Queries) > 0
 				for _, q := range o.Queries {
-					if q.Status == "unsat" || q.Status == "trivial" {
-						o.Status = "vacuous"
+					if !(q.Status == "unsat" || q.Status == "trivial") {
+						all = false
 					}
+				}
+				if all {
+					o.Status = "vacuous"
 				}
 				continue
 			}
